@@ -249,7 +249,7 @@ func (r *Run) checkCanonOnly(P string) {
 	n := 0
 	var check func(f *ssa.Function, c *ssa.Call, argIdx int, depth int) (bool, string)
 	check = func(f *ssa.Function, c *ssa.Call, argIdx int, depth int) (bool, string) {
-		tb := core.NewTermBuilder(r.P, f)
+		tb := r.E.Facts(f, core.Ctx{}).TB
 		t := tb.Of(c.Common().Args[argIdx])
 		switch {
 		case core.MatchTerm("canonicalizer.MarshalCanonical(_)", t, core.Bind{}),
